@@ -16,7 +16,7 @@
 From Coq Require Import ZArith List Bool Lia QArith Qcanon.
 From Coq Require Import Reals.
 From Coquelicot Require Coquelicot.
-From PS Require Import Arith EvalModel BSpline C04_Proofs OFieldKit C01_Basis C01_Core C01_Proofs C02_Basis C02_Proofs C03_Proofs C02_Analytic C02_Real.
+From PS Require Import Arith EvalModel BSpline C04_Proofs OFieldKit C01_Basis C01_Core C01_Proofs C02_Basis C02_Proofs C03_Proofs C02_Analytic C02_AnalyticRep C02_Real.
 Import ListNotations.
 Local Open Scope Z_scope.
 
@@ -99,6 +99,48 @@ Theorem C02_formula_is_the_derivative : forall (kn : Z -> R) (nknots : Z),
   @Coquelicot.Derive.is_derive Coquelicot.Hierarchy.R_AbsRing Coquelicot.Hierarchy.R_NormedModule (fun x : R => @Bfun RA kn true n i x) x0 (@dBfun RA kn true 1 n i x0).
 Proof. intros kn nknots Hs l Hl0 Hl1 n i x0 Hi0 Hi1 Hx. exact (dB_is_the_derivative kn nknots Hs l Hl0 Hl1 n i x0 Hi0 Hi1 Hx). Qed.
 
+Definition qz_rep (i : Z) : Qc := Q2Qc (inject_Z (if i <? 1 then 0 else if i <? 3 then 1 else if i <? 4 then 2 else if i <? 7 then 3 else 4)).
+
+(* The same two statements for NON-DECREASING knots — repeated knots allowed, which is the whole knot space of the first
+   derivatives in C02 — with the dropped-term convention (BSpline.wdiv) of the specification. [Bq l n i] / [Dq l n i] are the
+   piece and its derivative by the rules of differentiation, on an interval l of positive width. Whenever a knot difference
+   vanishes, the basis function it divides vanishes identically on the interval (step_identity, flat_zero). *)
+Theorem C02_piece_derivative_formula_repeated : forall (A : Arith) (F : OField A),
+  @ofZ A 0 = zero -> (forall z, 0 <= z -> @ofZ A (z + 1) = add (ofZ z) one) ->
+  forall (kn : Z -> T A) (nknots : Z), (forall i j, 0 <= i -> i <= j -> j < nknots -> OFieldKit.le (kn i) (kn j)) ->
+  forall l, 0 <= l -> l + 1 < nknots -> OFieldKit.lt (kn l) (kn (l + 1)) ->
+  forall n i x, 0 <= i -> i + Z.of_nat (S n) + 1 < nknots ->
+  Dq kn l (S n) i x =
+  mul (ofZ (Z.of_nat (S n)))
+      (sub (wdiv (Bq kn l n i x) (sub (kn (i + Z.of_nat (S n))) (kn i)))
+           (wdiv (Bq kn l n (i + 1) x) (sub (kn (i + Z.of_nat (S n) + 1)) (kn (i + 1))))).
+Proof. intros A F H0 H1 kn nknots Hm l Hl0 Hl1 Hp n i x Hi0 Hi1. exact (Dq_formula F H0 H1 kn nknots Hm l Hl0 Hl1 Hp n i x Hi0 Hi1). Qed.
+
+Theorem C02_formula_is_the_derivative_repeated : forall (kn : Z -> R) (nknots : Z),
+  (forall i j, 0 <= i -> i <= j -> j < nknots -> (kn i <= kn j)%R) ->
+  forall l, 0 <= l -> l + 1 < nknots ->
+  forall n i (x0 : R), 0 <= i -> i + Z.of_nat n + 1 < nknots -> (kn l < x0 < kn (l + 1)%Z)%R ->
+  @Coquelicot.Derive.is_derive Coquelicot.Hierarchy.R_AbsRing Coquelicot.Hierarchy.R_NormedModule (fun x : R => @Bfun RA kn true n i x) x0 (@dBfun RA kn true 1 n i x0).
+Proof. intros kn nknots Hm l Hl0 Hl1 n i x0 Hi0 Hi1 Hx. exact (dB_is_the_derivative_rep kn nknots Hm l Hl0 Hl1 n i x0 Hi0 Hi1 Hx). Qed.
+
+(* and for every derivative order: the (k+1)-st formula is the analytic derivative of the k-th, so [dBfun k] is the k-th
+   derivative of the Cox–de Boor function at every point strictly inside a knot interval (non-decreasing knots) *)
+Theorem C02_formula_k_is_the_kth_derivative : forall (kn : Z -> R) (nknots : Z),
+  (forall i j, 0 <= i -> i <= j -> j < nknots -> (kn i <= kn j)%R) ->
+  forall l, 0 <= l -> l + 1 < nknots ->
+  forall k n i (x0 : R), 0 <= i -> i + Z.of_nat n + 1 < nknots -> (kn l < x0 < kn (l + 1)%Z)%R ->
+  @Coquelicot.Derive.is_derive Coquelicot.Hierarchy.R_AbsRing Coquelicot.Hierarchy.R_NormedModule
+     (fun x : R => @dBfun RA kn true k n i x) x0 (@dBfun RA kn true (S k) n i x0).
+Proof. intros kn nknots Hm l Hl0 Hl1 k n i x0 Hi0 Hi1 Hx. exact (dBk_is_the_derivative kn nknots Hm l Hl0 Hl1 k n i x0 Hi0 Hi1 Hx). Qed.
+
+(* non-vacuity: order 2 on the knots 0 1 1 2 3 3 3 4 (a double and a triple knot): the derivative formula at 3/2 in interval 2 *)
+Example C02_repeated_example :
+  let kn := fun i : Z => qz_rep i in
+  OFieldKit.lt (A := QcA) (kn 2) (kn 3) /\
+  Dq (A := QcA) kn 2 2 1 (Q2Qc (3 # 2)) = dBfun (A := QcA) kn true 1 2 1 (Q2Qc (3 # 2)) /\
+  Dq (A := QcA) kn 2 2 1 (Q2Qc (3 # 2)) <> Q2Qc 0.
+Proof. cbv zeta. split; [vm_compute; reflexivity|]. split; [apply Qc_is_canon; vm_compute; reflexivity|]. vm_compute. discriminate. Qed.
+
 (* which derivative orders a bitmask denotes *)
 Theorem C02_bits_of_spec : forall n mask d, 0 <= mask -> (d < n)%nat ->
   nth d (bits_of n mask) O = if Z.testbit mask (Z.of_nat d) then 1%nat else O.
@@ -153,6 +195,10 @@ Print Assumptions C02_deriv_is_derivative_sum.
 Print Assumptions C02_high_order_zero.
 Print Assumptions C02_piece_derivative_formula.
 Print Assumptions C02_formula_is_the_derivative.
+Print Assumptions C02_piece_derivative_formula_repeated.
+Print Assumptions C02_formula_is_the_derivative_repeated.
+Print Assumptions C02_formula_k_is_the_kth_derivative.
+Print Assumptions C02_repeated_example.
 Print Assumptions C02_bits_of_spec.
 Print Assumptions C02_local_derivative_basis.
 Print Assumptions C02_hypotheses_satisfiable.
